@@ -301,7 +301,8 @@ func runC15(c *core.Ctx) {
 		}
 		if i%16 == 11 {
 			// long contexts: around the sizes at which an implementation might switch from one buffer to streaming
-			ctx = r.Bytes(r.Of(63, 64, 95, 96, 127, 128, 1023, 1024, 2015, 2016, 2017, 2047, 2048, 4096, 65536, 1<<20))
+			lens := []int{30, 31, 32, 63, 64, 94, 95, 96, 127, 128, 222, 223, 224, 255, 256, 478, 479, 480, 991, 1023, 1024, 2015, 2016, 2017, 2047, 2048, 4096, 65503, 65536, 1 << 20}
+			ctx = r.Bytes(lens[(i/16)%len(lens)]) // 32-byte blind || 0x00 || context: 64, 128, 256, 512, 1024, 2048 bytes in total, and their neighbours
 			c.Class("long_contexts")
 		}
 		msg := r.Bytes(r.IntN(r.Of(1, 40, 300)))
